@@ -36,14 +36,17 @@ func (v *Vue) evalVShow(ctx VueContext, n *html.Node) error {
 func (v *Vue) setStyleProperty(n *html.Node, property, value string) {
 	styleVal := helpers.GetAttr(n, "style")
 
-	// Parse existing styles
-	styleMap := parseStyleString(styleVal)
-	styleMap[property] = value
+	// Parse existing styles, keeping their order
+	keys, vals := parseStyleList(styleVal)
+	if _, ok := vals[property]; !ok {
+		keys = append(keys, property)
+	}
+	vals[property] = value
 
 	// Rebuild style string
 	var styles []string
-	for k, v := range styleMap {
-		styles = append(styles, k+":"+v+";")
+	for _, k := range keys {
+		styles = append(styles, k+":"+vals[k]+";")
 	}
 	helpers.AppendAttr(n, "style", strings.Join(styles, ""))
 }
